@@ -576,3 +576,112 @@ Section Cell.
       rewrite cell_value_app, A1. ring.
   Qed.
 End Cell.
+
+(* ------------------------------------------------------------ the input conditions, by days *)
+
+Lemma days_in_intro a c (Pq Pp : dec -> Prop) ds :
+  Forall posting_in_ok (days_postings ds) ->
+  Forall (fun p => cellb a c p = true -> Pq (p_qty p)) (days_postings ds) ->
+  Forall (fun d => cur_ok c Pp (d_normalized d)) ds ->
+  Forall (day_in a c Pq Pp) ds.
+Proof.
+  unfold days_postings, day_postings. rewrite !Forall_concat, !Forall_map. intros H1 H2 H3.
+  rewrite Forall_forall in *. intros d Hd. split; [|apply H3; exact Hd].
+  specialize (H1 d Hd). specialize (H2 d Hd). rewrite Forall_concat, Forall_map in H1, H2.
+  unfold txn_in, pin. rewrite Forall_forall in *. intros t Ht. specialize (H1 t Ht). specialize (H2 t Ht).
+  rewrite Forall_forall in *. intros p Hp. split; [apply H1|apply H2]; exact Hp.
+Qed.
+
+Lemma process_days_length {S} (p : processor S) ds : forall s s' ds',
+  process_days p s ds = ROk (s', ds') -> length ds' = length ds.
+Proof.
+  induction ds as [|d ds IH]; intros s s' ds' H; cbn [process_days] in H.
+  - injection H as <- <-. reflexivity.
+  - destruct (process_day p s d) as [[s1 d1]| |]; cbn [rbind fst snd] in H; try discriminate.
+    destruct (process_days p s1 ds) as [[s2 ds2]| |] eqn:E; cbn [rbind fst snd] in H; try discriminate.
+    injection H as <- <-. cbn [length]. rewrite (IH _ _ _ E). reflexivity.
+Qed.
+
+Definition val_init : val_state := mkVal None None [].
+
+Lemma posq_nil a c : posq a c [] == 0.
+Proof. reflexivity. Qed.
+
+(* ------------------------------------------------------------ instance 1: eps = 10^-8, no conditions *)
+
+Definition PT (_ : dec) : Prop := True.
+
+Lemma cur_ok_PT c n : cur_ok c PT n.
+Proof. intros pr _. exact I. Qed.
+
+Lemma days_in_PT a c ds : Forall posting_in_ok (days_postings ds) -> Forall (day_in a c PT PT) ds.
+Proof.
+  intros H. apply days_in_intro; [exact H| |].
+  - apply Forall_forall. intros p _ _. exact I.
+  - apply Forall_forall. intros d _. apply cur_ok_PT.
+Qed.
+
+(* delta form, from any state whose position map is well formed (every state the stage reaches) *)
+Theorem mtm_delta v a c ds s s' ds' :
+  account_ok a = true -> is_AL a = true -> c <> v ->
+  Forall posting_in_ok (days_postings ds) ->
+  good a c PT (v_qty s) ->
+  process_days (valuate_proc v) s ds = ROk (s', ds') ->
+  v_prev s' = last_normalized (v_prev s) ds /\ good a c PT (v_qty s') /\
+  posq a c (v_qty s') == posq a c (v_qty s) + cell_qty a c (days_postings ds) /\
+  Qabs (cell_value a c (days_postings ds')
+        - (posq a c (v_qty s') * price_value (v_prev s') c - posq a c (v_qty s) * price_value (v_prev s) c))
+    <= inject_Z (cell_count a c (days_postings ds')) * eps8.
+Proof.
+  intros Ha HAL Hcv Hin Hg H.
+  destruct (days_cell v a c Ha HAL Hcv PT PT PT eps8 I (fun _ _ _ _ => I) (fun _ _ _ _ => I)
+              (fun q p _ _ => merr_bound q p) (fun d q _ _ => merr_bound d q) eps8_nonneg
+              ds s s' ds' H (days_in_PT a c ds Hin) Hg (cur_ok_PT c _)) as (B1 & B2 & _ & _ & B5 & B6).
+  split; [exact B1|]. split; [exact B2|]. split; [exact B5|exact B6].
+Qed.
+
+(* the accumulated posted value of an asset/liability position is quantity * latest price, up to
+   one 10^-8 per contributing multiplication *)
+Theorem mark_to_market_stage v a c ds s' ds' :
+  account_ok a = true -> is_AL a = true -> c <> v ->
+  Forall posting_in_ok (days_postings ds) ->
+  process_days (valuate_proc v) val_init ds = ROk (s', ds') ->
+  Qabs (cell_value a c (days_postings ds')
+        - cell_qty a c (days_postings ds) * price_value (last_normalized None ds) c)
+    <= inject_Z (cell_count a c (days_postings ds')) * eps8.
+Proof.
+  intros Ha HAL Hcv Hin H.
+  destruct (mtm_delta v a c ds val_init s' ds' Ha HAL Hcv Hin (good_nil a c PT) H) as (B1 & _ & B5 & B6).
+  cbn [val_init v_prev v_qty] in *. rewrite posq_nil in *.
+  eapply Qle_trans; [|exact B6]. apply Qle_lteq. right. apply Qabs_wd.
+  rewrite B5, B1. ring.
+Qed.
+
+(* windowed: the value posted on the days after the first k is the change of the market value *)
+Theorem mark_to_market_window v a c ds1 ds2 s' out :
+  account_ok a = true -> is_AL a = true -> c <> v ->
+  Forall posting_in_ok (days_postings (ds1 ++ ds2)) ->
+  process_days (valuate_proc v) val_init (ds1 ++ ds2) = ROk (s', out) ->
+  Qabs (cell_value a c (days_postings (skipn (length ds1) out))
+        - (cell_qty a c (days_postings (ds1 ++ ds2)) * price_value (last_normalized None (ds1 ++ ds2)) c
+           - cell_qty a c (days_postings ds1) * price_value (last_normalized None ds1) c))
+    <= inject_Z (cell_count a c (days_postings (skipn (length ds1) out))) * eps8.
+Proof.
+  intros Ha HAL Hcv Hin H.
+  destruct (process_days_app _ _ _ _ _ _ H) as (s1 & o1 & o2 & E1 & E2 & ->).
+  assert (Hin12 : Forall posting_in_ok (days_postings ds1) /\ Forall posting_in_ok (days_postings ds2)).
+  { unfold days_postings in Hin |- *. rewrite map_app, concat_app in Hin. apply Forall_app in Hin. exact Hin. }
+  destruct Hin12 as [Hin1 Hin2].
+  destruct (mtm_delta v a c ds1 val_init s1 o1 Ha HAL Hcv Hin1 (good_nil a c PT) E1) as (A1 & A2 & A5 & _).
+  destruct (mtm_delta v a c ds2 s1 s' o2 Ha HAL Hcv Hin2 A2 E2) as (B1 & _ & B5 & B6).
+  rewrite <- (process_days_length _ _ _ _ _ E1), skipn_app, skipn_all, Nat.sub_diag. cbn [skipn app].
+  cbn [val_init v_prev v_qty] in *. rewrite posq_nil in A5.
+  eapply Qle_trans; [|exact B6]. apply Qle_lteq. right. apply Qabs_wd.
+  assert (EL : last_normalized None (ds1 ++ ds2) = v_prev s').
+  { rewrite B1, A1. unfold last_normalized. rewrite fold_left_app. reflexivity. }
+  rewrite EL, <- A1.
+  assert (EQ : cell_qty a c (days_postings (ds1 ++ ds2)) == posq a c (v_qty s')).
+  { unfold days_postings. rewrite map_app, concat_app, cell_qty_app. fold (days_postings ds1). fold (days_postings ds2).
+    rewrite B5, A5. ring. }
+  rewrite EQ. rewrite A5. ring.
+Qed.
